@@ -183,19 +183,20 @@ type pgen struct {
 	d     *docInfo
 	lines []string
 	// names in scope
-	loopInts  []string // counter-loop variables
-	rangeKeys []string
-	rangeVals []rangeVal
-	ctxVars   []ctxVar
-	nextID    int
-	lastK     string // names of the range loop finished last
-	lastV     string
-	lastKind  string
-	loopDepth int
-	maxDepth  int
-	opts      genOpts
-	statics   []StaticVar
-	stats     map[string]int
+	loopInts     []string // counter-loop variables
+	rangeKeys    []string
+	rangeVals    []rangeVal
+	ctxVars      []ctxVar
+	nextID       int
+	pendingReads []string // counters of finished loops, read later
+	lastK        string   // names of the range loop finished last
+	lastV        string
+	lastKind     string
+	loopDepth    int
+	maxDepth     int
+	opts         genOpts
+	statics      []StaticVar
+	stats        map[string]int
 }
 
 type rangeVal struct {
@@ -867,6 +868,16 @@ func (g *pgen) cloop() {
 	g.loopDepth--
 	g.loopInts = g.loopInts[:len(g.loopInts)-1]
 	g.emit("}")
+	if g.r.chance(1, 4) {
+		// the counter of a finished loop keeps the value the loop left it with,
+		// whatever later loops do with their own counters
+		g.pendingReads = append(g.pendingReads, v)
+		g.count("counter read after its loop has finished")
+	}
+	if len(g.pendingReads) > 0 && g.loopDepth == 0 && g.r.chance(1, 2) {
+		g.emit("probe(\"after-loops\", " + strings.Join(g.pendingReads, ", ") + ")")
+		g.pendingReads = nil
+	}
 	g.count("counter loop")
 }
 
